@@ -43,7 +43,10 @@ def check_access_rows(chk, it, tabs, rows, configs, rule_rt, rule_ea, rt_check, 
         per_key = {}
         for key, t in sorted(mt.all, key=lambda kt: kt[0]):
             text = t.text()
-            chk.require(not t.has_unknown_parts(), 'template of %s has unresolved parts: %r' % (nm, text))
+            if t.has_unknown_parts():
+                # e.g. the offset printed through another formatter: not comparable symbolically; the boundary offsets below decide
+                chk.undecide('template of %s has parts the symbolic comparison cannot resolve: %r' % (nm, text.strip()))
+                continue
             k_ = per_key.get(key, 0)        # an emitter may choose among several runtime functions on the alignment hint: each is checked
             per_key[key] = k_ + 1
             fname = 'M_%s_p%d_m%d_%s%s' % (nm.replace('.', '_'), key[0], key[1], key[2].replace('-', '_'), '_%d' % k_ if k_ else '')
@@ -57,6 +60,7 @@ def check_access_rows(chk, it, tabs, rows, configs, rule_rt, rule_ea, rt_check, 
                            'result slot of %s is not declared (%r)' % (nm, t.decls), site)
             if key[0] == 0 and key[1] == 0:
                 chk.sample(dict(op=nm, variant=key[2], template=text.strip()))
+    check_boundary_offsets(chk, it, tabs, rows, rule_ea)
     tu = harness.parse('mem-' + header_cfg)
     chk.unit(tu)
     callees = {}
@@ -113,6 +117,58 @@ def check_access_rows(chk, it, tabs, rows, configs, rule_rt, rule_ea, rt_check, 
             chk.expect(not bad, rule_rt, '%s@concrete' % row['name'], '%s: %s' % (row['name'], bad), site + ':bytes',
                        detail_ok='agrees with the byte-level specification on the concrete family')
     return tu
+
+
+BOUNDARY_OFFSETS = (1, 0x7FFFFFFF, 0x80000000, 0x80000010, 0xFFFFFFFF)
+
+
+def check_boundary_offsets(chk, it, tabs, rows, rule):
+    """the static offset is any u32: every access is emitted with the concrete offsets 1, 2^31-1, 2^31, 2^31+16 and 2^32-1 and the address
+    argument of the emitted call is evaluated (C semantics of the target, 64-bit) for the base addresses 0x10 and 0xFFFFFFFF: it must be
+    base + offset without wrap-around - however the translator prints the number (an offset printed through a signed formatter, or
+    without the unsigned suffix, is a negative or int-typed literal from 2^31 on)"""
+    harness = templates.Harness(base_flags=['-DWASM_THREADS_PTHREADS'])
+    base = len(mr.FILLER)
+    plan = []
+    for row in rows:
+        nm = row['name']
+        acc = row['sem'].get('access')
+        for off in BOUNDARY_OFFSETS:
+            stack = mr.FILLER + row['params']
+            try:
+                tpls = [t for t in templates.extract(it, row, stack, 0, 0, imm={'align': oracle.natural_align(acc) if acc else 0, 'offset': off})
+                        if t.ok and t.parts]
+            except (emit.ScriptMismatch, pe.PEError):
+                continue        # reported by the symbolic comparison
+            for k_, t in enumerate(tpls):
+                if t.has_unknown_parts():
+                    continue
+                fname = 'B_%s_%x_%d' % (nm.replace('.', '_'), off, k_)
+                harness.add(fname, t.text())
+                plan.append((row, off, fname, t.text()))
+    if not plan:
+        return
+    tu = harness.parse('mem-boundary')
+    chk.unit(tu)
+    for row, off, fname, text in plan:
+        nm = row['name']
+        try:
+            dst, call, casts = mr.parse_call_template(tu, fname)
+        except AnalysisBroken:
+            continue
+        if len(call.a) < 2:
+            continue
+        aslot = mr.slot(tabs, row['params'][0], base)
+        for b_ in (0x10, 0xFFFFFFFF):
+            try:
+                got = ct.ieval(call.a[1], {aslot: b_})
+            except (ct.EvalTrap, ct.EvalUB, ct.EvalUnknown) as e:
+                got = 'not evaluable (%s)' % e
+            chk.expect(got == b_ + off, rule, '%s:offset-%#x:base-%#x' % (nm, off, b_),
+                       '%s with static offset %#x: the emitted address argument %r evaluates to %s for the address operand %#x; the '
+                       'specification\'s effective address is %#x (base + offset, no wrap-around)   [template: %s]'
+                       % (nm, off, call.a[1], ('%#x' % got) if isinstance(got, int) else got, b_, b_ + off, text.strip()),
+                       'emitter/' + nm + ':offset-literal')
 
 
 def plain_rt_check(chk, rule, row, summ, site, htu):
